@@ -3,6 +3,7 @@ pub mod c02;
 pub mod c03;
 pub mod c05;
 pub mod c09;
+pub mod c11;
 pub mod c15;
 pub mod c16;
 
@@ -16,6 +17,7 @@ pub fn eval(op: &str, args: &[&str]) -> Option<String> {
         "c03" | "c04" | "c10" => c03::eval(op, args),
         "c05" => c05::eval(op, args),
         "c09" => c09::eval(op, args),
+        "c11" => c11::eval(op, args),
         "c15" => c15::eval(op, args),
         "c16" => c16::eval(op, args),
         _ => None,
@@ -28,6 +30,7 @@ pub fn generate(prop: &str, thorough: bool, rng: &mut Rng, em: &mut Emit) {
         "C03" | "C04" | "C10" => c03::generate(prop, thorough, rng, em),
         "C05" => c05::generate(thorough, rng, em),
         "C09" => c09::generate(thorough, rng, em),
+        "C11" => c11::generate(thorough, rng, em),
         "C15" => c15::generate(thorough, rng, em),
         "C16" => c16::generate(thorough, rng, em),
         _ => panic!("unknown property {}", prop),
